@@ -68,7 +68,9 @@ fn main() {
         }
         "pack" => {
             let mut rec = rec::Recorder::to_file(&out);
-            pack::run(seed, &get("layouts", ""), get("sample", "50").parse().unwrap(), &mut rec);
+            let part = get("part", "0/1");
+            let (pi, pn) = part.split_once('/').unwrap();
+            pack::run(seed, &get("layouts", ""), get("sample", "50").parse().unwrap(), (pi.parse().unwrap(), pn.parse().unwrap()), &mut rec);
             eprintln!("{}", serde_json::to_string(&rec.stats_json()).unwrap());
             if let Some(p) = m.get("stats") {
                 std::fs::write(p, serde_json::to_string_pretty(&serde_json::json!({"stats": rec.stats_json(), "samples": rec.samples})).unwrap()).unwrap();
